@@ -27,7 +27,7 @@ ASSUMPTIONS = c01.ASSUMPTIONS + ["vf/selectors.py implements the selector semant
 BUDGET = {"quick": {"examples": 10000, "wall": 180}, "thorough": {"examples": 300000, "wall": 5400}}
 FLOORS = {"nontrivial": 0.3, "mode:sm": 0.25, "mode:classes": 0.25, "sel:focus": 0.1, "sel:sparql": 0.08, "sel:node": 0.08}
 KNOWN = ("C01-NONLIT", "C01-NONLIT-KLS", "C02-MIXEDKIND", "C02-GONEREF")
-NSD = {"http://ex.org/": "ex", "http://ex.org/ns/": "ns", "http://other.org/v#": "v", "https://data.example/": "d",
+NSD = {"http://ex.org/": "ex", "http://ex.org/ns/": "ns-1", "http://other.org/v#": "v.x", "https://data.example/": "d",
        "http://www.wikidata.org/prop/direct/": "wdt", "http://sh.org/": "sho"}
 LABEL_NS = "http://sh.org/"
 
